@@ -575,24 +575,70 @@ def _quarantine(text, ctx, errors):
             if x:
                 exts.append((x, e))
     hit = {}
+    fields = {}
+    lines = text.split('\n')
     for (msg, ln) in errors:
         if ln is None:
             return None
-        off = len('\n'.join(text.split('\n')[:ln - 1])) + 1
+        off = len('\n'.join(lines[:ln - 1])) + 1
         found = None
         for (x, e) in exts:
             if x[0] <= off <= x[2]:
                 found = (x, e)
         if not found:
+            # a FIELD of an extracted struct whose type the verifier cannot hold (e.g. a Mutex added by the edit): the field becomes opaque;
+            # functions that touch it will fail to compile next round and be quarantined one by one, the others are still verified
+            fm = re.match(r'^(\s*(?:pub(?:\([^)]*\))?\s+)?)([a-z_][A-Za-z0-9_]*)\s*:\s*(.+?)(,?)\s*$', lines[ln - 1])
+            in_item = None
+            for e in ctx.extracted:
+                if not getattr(e, 'sig_final', None) and not e.key.startswith('helper:') and re.search(r'\bstruct\b', e.text[:200]):
+                    pos = text.find(e.text)
+                    if pos >= 0 and pos <= off <= pos + len(e.text):
+                        in_item = e
+            if fm and in_item is not None and fm.group(3).strip() != 'OpaqueField':
+                fields[ln] = (in_item.key, fm, msg)
+                continue
+            # the error names a type and points at the struct as a whole: every field of that struct mentioning the type becomes opaque
+            tm = re.search(r'`([A-Za-z_][\w:]*)` is not supported', msg)
+            if tm and in_item is not None:
+                tyname = tm.group(1).rsplit('::', 1)[-1]
+                pos = text.find(in_item.text)
+                first = text.count('\n', 0, pos) + 1
+                some = False
+                for k in range(first, first + in_item.text.count('\n') + 1):
+                    fm2 = re.match(r'^(\s*(?:pub(?:\([^)]*\))?\s+)?)([a-z_][A-Za-z0-9_]*)\s*:\s*(.+?)(,?)\s*$', lines[k - 1])
+                    if fm2 and re.search(r'\b%s\b' % re.escape(tyname), fm2.group(3)):
+                        fields[k] = (in_item.key, fm2, msg)
+                        some = True
+                if some:
+                    continue
             return None
         hit.setdefault(found[1].key, (found[0], found[1], msg))
     out = text
     reasons = {k: v[2] for k, v in hit.items()}
+    if fields:
+        ls = out.split('\n')
+        for ln, (ikey, fm, msg) in fields.items():
+            ls[ln - 1] = '%s%s: OpaqueField%s // @QUARANTINED field (was: %s)' % (fm.group(1), fm.group(2), fm.group(4), fm.group(3).strip()[:80])
+            reasons['field:%s.%s' % (ikey, fm.group(2))] = msg
+        out = '\n'.join(ls)
+        if 'pub struct OpaqueField;' not in out:
+            out = out.replace('verus! {\n', 'verus! {\n#[verifier::external_body] pub struct OpaqueField;   // a field type outside the verifier\'s reach (quarantine)\n', 1)
+        if hit:
+            return None if False else _quarantine_apply(out, hit, reasons)
+        return out, reasons
+    return _quarantine_apply(out, hit, reasons)
+
+
+def _quarantine_apply(out, hit, reasons):
+    # offsets of function extents were computed on the text before field lines were rewritten: recompute by searching again is not needed as
+    # long as field rewrites happen on OTHER lines; lengths may differ, so locate each function anew by its marker
     for key, (x, e, msg) in sorted(hit.items(), key=lambda kv: -kv[1][0][0]):
-        if '@QUARANTINED' in out[x[0]:x[2]]:
+        x2 = _fn_extent(out, e) or x
+        if '@QUARANTINED' in out[x2[0]:x2[2]]:
             return None
-        out = out[:x[1]] + '{ unimplemented!() } // @QUARANTINED' + out[x[2]:]
-        out = out[:x[0]] + '#[verifier::external_body] ' + out[x[0]:]
+        out = out[:x2[1]] + '{ unimplemented!() } // @QUARANTINED' + out[x2[2]:]
+        out = out[:x2[0]] + '#[verifier::external_body] ' + out[x2[0]:]
     return out, reasons
 
 
